@@ -85,7 +85,7 @@ M_POOL = [2, 3, 4, 5, 7, 10, 11, 13]
 
 LOG_KINDS = ["pyfloat", "pyint", "npf64", "npf32", "npi64", "arr0d", "arr0dint", "len1", "len1int", "shape11", "vec",
              "intvec", "f32vec", "mat", "matF", "vecrev", "vecstrided", "pycomplex", "npcomplex", "cvec"]
-LOG_FMTS = ["default", "e", "f", ".3e", ".5g", ".10e", "g", "+.4e", ".0f", ".12g", ".17e", "14.6e", "08.3f"]
+LOG_FMTS = ["default", "e", "f", ".3e", ".5g", ".10e", "g", "+.4e", ".0f", ".12g", ".17e", "14.6e", "08.3f", ".6%", ".2%"]
 LOG_SEPS = ["default", "\t", " ", ";", ",", "|", " ; ", "  "]
 LOG_EXTS = [".txt", ".csv", ".log", "", ".dat"]
 LOG_TAGS = ["f", "g0", "vol", "lam"]
@@ -175,6 +175,8 @@ def _fmt_ok(fmt, sep, kinds):
         return False
     if fmt == "08.3f" and any(k in ("pycomplex", "npcomplex", "cvec") for k in kinds):
         return False                              # Python: zero padding is not allowed for complex numbers
+    if fmt.endswith("%") and any(k in ("pycomplex", "npcomplex", "cvec") for k in kinds):
+        return False                              # Python: the percent type does not exist for complex numbers
     return True
 
 
@@ -616,6 +618,8 @@ def _snapshot(v):
 
 def _parse_number(txt, cplx):
     t = txt.strip()
+    if t.endswith("%") and not cplx:      # Python's percent presentation type: the value times 100, followed by a percent sign
+        return float(t[:-1]) / 100.0
     return complex(t) if cplx else float(t)
 
 
